@@ -3,3 +3,13 @@ CHECKS["C18"] = {
     "text": "every interleaving (iteratively up to the completed preemption bound) of 2-3 goroutines x 1-2 operations on each primitive is executed on the instrumented real code and checked against the primitive's sequential contract",
     "note": "scheduling points only at sync/atomic/channel/time operations (sequential consistency); bounds: threads, ops per thread, preemption bound as reported in evidence",
 }
+CHECKS["C07"] = {
+    "technique": "stateless model checking: preemption-bounded DFS (with happens-before state caching) over all goroutine schedules of closed MapReduce programs on the real lib/mr code",
+    "text": "134+ closed programs (entry point x items x workers x per-item mapper behaviour x reducer behaviour x context) are executed under every goroutine interleaving up to the reported preemption bound; each execution is checked for exactly-once processing, worker bound, the exact result (or the allowed set when several disturbances race), that the call returns, and that no goroutine created by the call is left at quiescence",
+    "note": "scheduler is sequentially consistent; select non-default ready cases and rendezvous partner choice count as deviations; HB caching assumes all cross-thread communication goes through instrumented primitives or vrt.Obs (harness observations are noted)",
+}
+CHECKS["C10"] = {
+    "technique": "explicit-state model checking: BFS over operation histories of the real TimingWheel (in-package, fake ticker, run-to-quiescence after each op) against a reference map key->(fire tick,value); states deduplicated on model state + the wheel's slot contents",
+    "text": "every history of Set/Move/Remove/tick/Drain/Stop/invalid-argument calls over 1-2 keys up to the reported depth, for 1..4 (thorough 1..5) slots and delays up to 3 revolutions, is replayed on a fresh real wheel; every transition is compared with the reference model (exactly-once firing in the right tick with the latest value, no firing otherwise)",
+    "note": "default schedule only (the wheel is single-goroutine by design; callbacks are awaited by quiescence); delays are multiples of the interval plus two half-interval values",
+}
